@@ -88,7 +88,16 @@ type C02Plan struct {
 	// that is refused: the record is torn, so only the byte-count clause is
 	// checked for that Write (the count must equal what the medium received).
 	RejectOffset int `json:"reject_offset,omitempty"`
+	// WarmType > 0 (BED): the Writer has been used at this width before (on
+	// another stream position) and its exported BedType field is then set to
+	// WriteType.
+	WarmType int `json:"warm_type,omitempty"`
 }
+
+// swSink lets one Writer be used on two media in turn.
+type swSink struct{ cur io.Writer }
+
+func (s *swSink) Write(p []byte) (int, error) { return s.cur.Write(p) }
 
 var fieldWords = []string{"track", "browser", "tracking_ctg7", "browser_position", "chr", "gff-version", "date", "Type", "DNA", "end-DNA",
 	"sequence-region", "NaN", "Inf", "nil", "null", "true", "0", "-1", "1e3", "0x1F", "+", "-", ".", "..", "\\t", "\\n", "%s", "%d%%"}
@@ -394,6 +403,12 @@ func genC02(r *simrt.RNG) *Case {
 		pl = genGff(r)
 	}
 	pl.Delivery = simio.PickDelivery(r)
+	if pl.Format == "bed" && r.Intn(8) == 0 {
+		pl.WarmType = []int{3, 4, 5, 6, 12}[r.Intn(5)]
+		if pl.WarmType > pl.BedType {
+			pl.WarmType = pl.BedType
+		}
+	}
 	if r.Intn(3) == 0 {
 		pl.WriteFault = 1 + r.Intn(1<<20)
 		if r.Bool() {
@@ -420,7 +435,21 @@ func writeFeatsTo(pl *C02Plan, sink *simio.Sink) (text []byte, want []string, wr
 	site := "c02-" + pl.Format
 	var w featio.Writer
 	if pl.Format == "bed" {
-		bw, err := bed.NewWriter(sink, pl.WriteType)
+		var bw *bed.Writer
+		var err error
+		if pl.WarmType > 0 && len(pl.Beds) > 0 {
+			sw := &swSink{cur: &simio.Sink{}}
+			bw, err = bed.NewWriter(sw, pl.WarmType)
+			if err == nil {
+				if _, werr := bw.Write(pl.Beds[0].build(pl.BedType)); werr != nil {
+					return nil, nil, 0, viol(site+"-write-error", "warm-up record at width %d: Write failed on a healthy sink: %v", pl.WarmType, werr)
+				}
+				bw.BedType = pl.WriteType
+				sw.cur = sink
+			}
+		} else {
+			bw, err = bed.NewWriter(sink, pl.WriteType)
+		}
 		if err != nil {
 			return nil, nil, 0, viol(site+"-writer", "NewWriter(%d): %v", pl.WriteType, err)
 		}
